@@ -3,10 +3,16 @@
 PROP = dict(
     harnesses={"c06_stream": dict(sources=["harness/c06_stream.cpp"])},
     legs=[
-        dict(name="bfd", harness="c06_stream", flavour="asan", mode="bfd", quick=3000, thorough=60000,
+        dict(name="bfd", harness="c06_stream", flavour="asan", mode="bfd", quick=20000, thorough=0,
              args=["--watchdog", "120"], case_timeout=300),
-        dict(name="tcp", harness="c06_stream", flavour="asan", mode="tcp", quick=1500, thorough=30000,
+        dict(name="grid", harness="c06_stream", flavour="asan", mode="grid", quick=2880, thorough=2880, scalable=False, exhaustive=True,
              args=["--watchdog", "120"], case_timeout=300),
+        dict(name="tcp", harness="c06_stream", flavour="asan", mode="tcp", quick=10000, thorough=0,
+             args=["--watchdog", "120"], case_timeout=300),
+        dict(name="bfd-large", harness="c06_stream", flavour="asan", mode="bfd", quick=0, thorough=600000,
+             args=["--watchdog", "300", "--thorough", "1"], case_timeout=600),
+        dict(name="tcp-large", harness="c06_stream", flavour="asan", mode="tcp", quick=0, thorough=300000,
+             args=["--watchdog", "300", "--thorough", "1"], case_timeout=600),
     ],
     rule="tbd",
     assumptions=[],
